@@ -68,10 +68,33 @@ fn rbf_of(ts: &TaskSet, i: usize) -> DynRbf {
     RBF::new(ts.tasks[i].arr.build(), Scalar::new(s(ts.tasks[i].wcet)))
 }
 
+/// A request-bound function the *user* wrote against the public trait: it forwards the three
+/// required methods to a plain RBF and relies on the trait's DEFAULT `service_needed` (sum of
+/// `job_cost_iter`) and `service_needed_by_n_jobs` (representation 5).
+pub struct UserRb(pub DynRbf);
+
+impl RequestBound for UserRb {
+    fn least_wcet_in_interval(&self, delta: response_time_analysis::time::Duration) -> response_time_analysis::time::Service {
+        self.0.least_wcet_in_interval(delta)
+    }
+    fn steps_iter<'a>(&'a self) -> Box<dyn Iterator<Item = response_time_analysis::time::Duration> + 'a> {
+        self.0.steps_iter()
+    }
+    fn job_cost_iter<'a>(
+        &'a self,
+        delta: response_time_analysis::time::Duration,
+    ) -> Box<dyn Iterator<Item = response_time_analysis::time::Service> + 'a> {
+        self.0.job_cost_iter(delta)
+    }
+}
+
 /// The demand of task `j` as handed to an analysis that takes trait objects: plain RBF, or (for
 /// the "group" representations 3 and 4) an aggregate of the task and a member that never
 /// releases anything — a valid, if unusual, upper bound of the same task's demand.
 fn other_dyn(ts: &TaskSet, j: usize, repr: u8) -> Box<dyn RequestBound> {
+    if repr == 5 {
+        return Box::new(UserRb(rbf_of(ts, j)));
+    }
     if repr >= 3 {
         let never: DynRbf = RBF::new(
             Box::new(response_time_analysis::arrival::Never {}),
@@ -212,6 +235,11 @@ pub fn analyse_raw(ts: &TaskSet, variant: Variant, i: usize, repr: u8) -> Search
                         demand::Aggregate::new(owned),
                         demand::Aggregate::new(tail),
                     ])];
+                    run_fp!(others)
+                }
+                5 => {
+                    // user-defined request-bound functions relying on the trait's defaults
+                    let others: Vec<UserRb> = hep.iter().map(|j| UserRb(rbf_of(ts, *j))).collect();
                     run_fp!(others)
                 }
                 _ => {
@@ -355,6 +383,10 @@ pub fn analyse_raw(ts: &TaskSet, variant: Variant, i: usize, repr: u8) -> Search
                         Box::new(demand::Aggregate::new(tail)),
                     ];
                     fifo::dedicated_uniproc_rta(&demand::Aggregate::new(parts), limit)
+                }
+                5 => {
+                    let user: Vec<UserRb> = owned.into_iter().map(UserRb).collect();
+                    fifo::dedicated_uniproc_rta(&demand::Aggregate::new(user), limit)
                 }
                 _ => fifo::dedicated_uniproc_rta(&demand::Aggregate::new(owned), limit),
             }
